@@ -88,6 +88,12 @@ func pkgWFRaw(b []byte) string {
 	return "ok"
 }
 
+// pkgRootIs: is the root element of the (well-formed) stream {space}local ?
+func pkgRootIs(b []byte, space, local string) bool {
+	root, err := ParseXML(b)
+	return err == nil && root != nil && root.Local == local && root.Space == space
+}
+
 func pkgEmpty(zipState string) map[string]interface{} {
 	return map[string]interface{}{"zip": zipState, "dups": []string{}, "ct": "-", "prels": "-",
 		"odoc": []bool{}, "parts": []map[string]interface{}{}}
@@ -115,11 +121,15 @@ func pkgProject(b []byte) map[string]interface{} {
 	}
 	sort.Strings(dups)
 	out["dups"] = dups
+	// "foreign": well-formed XML whose root is not the Types / Relationships element of the OPC namespaces, i.e. a stream
+	// that declares no content type / relationship at all to a namespace-aware consumer
 	switch {
 	case p.CTErr == "missing":
 		out["ct"] = "missing"
 	case p.CTErr != "":
 		out["ct"] = "ill-formed"
+	case !pkgRootIs(p.Parts["[Content_Types].xml"], nsCT, "Types"):
+		out["ct"] = "foreign"
 	default:
 		out["ct"] = "ok"
 	}
@@ -127,6 +137,8 @@ func pkgProject(b []byte) map[string]interface{} {
 		out["prels"] = "missing"
 	} else if p.RelsErr["_rels/.rels"] != "" {
 		out["prels"] = "ill-formed"
+	} else if !pkgRootIs(p.Parts["_rels/.rels"], nsRel, "Relationships") {
+		out["prels"] = "foreign"
 	} else {
 		out["prels"] = "ok"
 	}
@@ -140,6 +152,9 @@ func pkgProject(b []byte) map[string]interface{} {
 	out["odoc"] = odoc
 	parts := []map[string]interface{}{}
 	for _, n := range p.SortedNames() {
+		if strings.HasSuffix(n, "/") {
+			continue // a directory entry is not a part
+		}
 		ext := strings.TrimPrefix(path.Ext(n), ".")
 		isx := p.IsXMLPart(n)
 		wf := "-"
